@@ -16,7 +16,13 @@ import (
 	"verifharness/vh"
 )
 
-var chunkings = []string{"1", "2", "3", "7", "midrune", "rand"}
+var chunkings = []string{"1", "2", "3", "7", "midrune", "rand", "z1", "zwhole"}
+
+// firstBytes: prefixes put in front of a document so that its first character is multi-byte (a byte
+// order mark, no-break space, line separator, ideographic space, a letter, an astral character):
+// decoders that treat the first bytes specially (BOM, encoding sniffing) must do so for every
+// schedule of the reads, in particular when the first Read returns 0, 1 or 2 bytes.
+var firstBytes = []string{"\xef\xbb\xbf", "\xef\xbb\xbf\xef\xbb\xbf", "\u00a0", "\u2028", "\u3000", "\u00e9", "\U0001F41B", "\xef\xbb", "\xef"}
 
 func sameStmts(a, b []string) bool {
 	if len(a) != len(b) {
@@ -263,7 +269,21 @@ func (e *engine) runSchedules() {
 				s := pick()
 				emit(Case{Format: f, Opts: e.randOpts(r, f), Input: mutate(r, s.B, hot), Family: "mutated", Name: s.Name})
 			}
-			// multi-byte and escape heavy documents: the mid-rune schedule needs something to split
+			// documents whose first character is multi-byte (see firstBytes)
+		nFirst := 6
+		if e.thorough {
+			nFirst = 40
+		}
+		for i := 0; i < nFirst*e.scale; i++ {
+			s := pick()
+			for _, fb := range firstBytes {
+				if i >= 2 && r.Chance(60) {
+					continue
+				}
+				emit(Case{Format: f, Opts: e.randOpts(r, f), Input: append([]byte(fb), s.B...), Family: "first-bytes", Name: s.Name})
+			}
+		}
+		// multi-byte and escape heavy documents: the mid-rune schedule needs something to split
 			for _, g := range hugeGens[f] {
 				if strings.Contains(g.Name, "escapes") || strings.Contains(g.Name, "uchar") || strings.Contains(g.Name, "entities") || g.Name == "text" || g.Name == "string" || g.Name == "string-value" {
 					in := bytes.ReplaceAll(g.F(600), []byte("aaa"), []byte("é🐛a"))
